@@ -19,7 +19,7 @@ Definition s_t3_info_request_client : list N := [84; 111; 107; 101; 110; 82; 101
 Definition s_t3_info_response_client : list N := [84; 111; 107; 101; 110; 82; 101; 115; 112; 111; 110; 115; 101]. (* 'TokenResponse' *)
 Definition s_t3_info_request_issuer : list N := [84; 111; 107; 101; 110; 82; 101; 113; 117; 101; 115; 116]. (* 'TokenRequest' *)
 Definition s_t3_info_response_issuer : list N := [84; 111; 107; 101; 110; 82; 101; 115; 112; 111; 110; 115; 101]. (* 'TokenResponse' *)
-Definition s_t3_pad : list N := [31; 1; 32].
+Definition s_t3_pad : list N := [].
 Definition s_t3_request_fields : list N := [49; 32; 96].
 Definition s_type1 : N := 1.
 Definition s_type2 : N := 2.
